@@ -201,13 +201,50 @@ def verbatimOf (base : Nat) (src : Str) (parts : List Node) (i : Nat) : Bool :=
      | .parameter q _ => src[q.1 + 1]? == some '{'
      | _ => false) && p.pos.1 ≤ base + i && base + i < p.pos.2
 
+/-- for every position of `t`: is it inside single quotes (shell scan) -/
+def sqMaskGo : QState → Str → List Bool
+  | _, [] => []
+  | 1, c :: rest => if c == '\'' then false :: sqMaskGo 0 rest else true :: sqMaskGo 1 rest
+  | 2, c :: rest =>
+    if c == '"' then false :: sqMaskGo 0 rest
+    else if c == '\\' then (match rest with | [] => [false] | _ :: rest' => false :: false :: sqMaskGo 2 rest')
+    else false :: sqMaskGo 2 rest
+  | _, c :: rest =>
+    if c == '\\' then (match rest with | [] => [false] | _ :: rest' => false :: false :: sqMaskGo 0 rest')
+    else if c == '\'' then false :: sqMaskGo 1 rest
+    else if c == '"' then false :: sqMaskGo 2 rest
+    else false :: sqMaskGo 0 rest
+
+/-- D6 seen from C06: bashlex recorded an expansion part that starts inside single quotes (single
+    quotes protect only a wholly quoted word), so "expansions are kept verbatim" and quote removal
+    disagree about that text -/
+def partInSingleQuotes (base : Nat) (t : Str) (parts : List Node) : Bool :=
+  let mask := sqMaskGo 0 t
+  parts.any fun p => base ≤ p.pos.1 && mask.getD (p.pos.1 - base) false
+
 def wordViol (s : Str) (ctx : String) (n : Node) : List Viol :=
   match n with
   | .word p w ps | .assignment p w ps =>
     let t := Str.slice s p.1 p.2
     let want := quoteRemove (verbatimOf p.1 s ps) t
-    if w == want then [] else ["value-mismatch" ++ (quoteFeatures t).tags ++ (if k7 t then "+K7" else "") ++ ctx]
+    if w == want then [] else ["value-mismatch" ++ (quoteFeatures t).tags ++ (if k7 t then "+K7" else "") ++
+      (if partInSingleQuotes p.1 t ps then "+expansion-in-single-quotes" else "") ++ ctx]
   | _ => []
+
+/-- a line continuation in the sense of the shell: a backslash-newline outside single quotes whose
+    backslash is not itself escaped (`"\\\\` + newline is an escaped backslash followed by a newline) -/
+def realContGo : QState → Str → Bool
+  | _, [] => false
+  | 1, c :: rest => if c == '\'' then realContGo 0 rest else realContGo 1 rest
+  | 2, c :: rest =>
+    if c == '"' then realContGo 0 rest
+    else if c == '\\' then (match rest with | [] => false | d :: rest' => d == '\n' || realContGo 2 rest')
+    else realContGo 2 rest
+  | _, c :: rest =>
+    if c == '\\' then (match rest with | [] => false | d :: rest' => d == '\n' || realContGo 0 rest')
+    else if c == '\'' then realContGo 1 rest
+    else if c == '"' then realContGo 2 rest
+    else realContGo 0 rest
 
 mutual
 /-- C06 on one tree: every word / assignment value is the quote-removed source under its span.
@@ -216,7 +253,9 @@ mutual
 def quoteOKN (s : Str) (ctx : String) : Node → List Viol
   | n@(.word p _ ps) | n@(.assignment p _ ps) =>
     let t := Str.slice s p.1 p.2
-    let ctx' := if hasContinuation t then addCtx ctx "+cont" else ctx
+    -- (the flat scan does not follow the quoting context of a `$(…)`: with a substitution part any
+    --  backslash-newline counts)
+    let ctx' := if realContGo 0 t || (hasContinuation t && ps.any isSubst) then addCtx ctx "+cont" else ctx
     -- D32: a redirection operator glued to the word and followed by a continuation stays in the span
     let ctx' := if endsWith t ['<', '\\'] || endsWith t ['>', '\\'] then addCtx ctx' "+redircont" else ctx'
     let ctxp := if (stripContinuations t).contains '\n' then addCtx ctx' "+nlword" else ctx'
